@@ -109,8 +109,13 @@ ASSUMPTIONS = [
     'trusted: ddict.getdefault answers for a missing key the parameter fresh_posr = the object C16_source_position_init proves '
     'PositionRenderer.__init__ builds (the factory lambda: PositionRenderer(ctx) itself and InventoryRenderer.__init__ are not translated), '
     'dict.set keeps an existing key in place and appends a new one, update on an owned PositionRenderer is the translated '
-    'PositionRenderer.update interpreted on its fields.  NOT tied: InventoryRenderer.__init__ / prepare, the Counter / self.counts '
-    'statements of update, and the two non-expanded layouts of format (Render.v does not model them)',
+    'PositionRenderer.update interpreted on its fields; InventoryRenderer.prepare under expand (rule P0/P1: only `if self.expand: '
+    'self.maxwidth = self.renderers[self.expand].prepare()` is translated - the else branch is cut off, the final super().prepare() is run '
+    'as the translated ColumnRenderer.prepare; C16_source_inventory_prepare_expand; coq/Proofs/SrcRenderInvPrep.v) and the life cycle '
+    'update* / prepare / format of an expanded column (C16_source_inventory_lifecycle: width = Render.p_width (inv_state), cell = '
+    'Render.inv_format; each method is interpreted under its own layer of primitives prims_inv < prims_invu < prims_invp; it assumes no '
+    'commodity is named "__default__", as the position theorems do).  NOT tied: InventoryRenderer.__init__, the Counter / self.counts '
+    'statements of update, the else branch of prepare and the two non-expanded layouts of format (Render.v does not model them)',
 ]
 
 
